@@ -75,8 +75,10 @@ def gen_case(rng, name):
         gen.narrow_dtypes(rng, c, positive=positive, pairs=False, floats=False)   # (single precision: another rounding unit)
         c["mode"] = mode + "+narrow_dtypes"
         for j in range(m):
+            hi = (gen.NARROW.get(c["dtypes"][j]) or (None, float("inf")))[1]
+            step = 1.0 if mtx[0][j] + 3 <= hi else -1.0       # stay inside the storage type
             while len({r[j] for r in mtx}) == 1 or sum(r[j] for r in mtx) == 0:
-                mtx[0][j] += 1.0
+                mtx[0][j] += step
     return c
 
 
